@@ -107,6 +107,8 @@ func main() {
 		runC18()
 	case "pub":
 		runPub()
+	case "c08":
+		runC08()
 	default:
 		fmt.Fprintln(os.Stderr, "unknown property", cmd)
 		os.Exit(2)
